@@ -44,6 +44,8 @@ type Prop struct {
 	MaxShards int
 	// Budget in seconds for (quick, thorough); 0 = defaults.
 	BudgetQuick, BudgetThorough int
+	// HangSeconds overrides the no-progress limit after which the running case is reported as a hang.
+	HangSeconds int
 }
 
 var registry = map[string]*Prop{}
@@ -280,6 +282,9 @@ func (c *Ctx) watchdog() {
 				}()
 			}
 			kind := "hang"
+			if hs, ok := cs.(interface{ HangSig() string }); ok {
+				kind = "hang:" + hs.HangSig()
+			}
 			detail := fmt.Sprintf("no progress for %s inside one case", HangTimeout)
 			if tooBig {
 				kind, detail = "memory-blowup", fmt.Sprintf("heap grew to %d MB inside one case", ms.HeapAlloc>>20)
@@ -307,35 +312,38 @@ func Safe(f func()) (pv interface{}, site string) {
 	return nil, ""
 }
 
-// PanicSite extracts the first omniparser (or dependency) frame below the panic from a stack dump.
+// PanicSite extracts the innermost non-runtime, non-reflect frame below the panic from a stack
+// dump, as "pkg.func @ file.go:line" (no addresses or argument values, so it is stable).
 func PanicSite(stack string) string {
 	lines := strings.Split(stack, "\n")
 	seenPanic := false
 	for i := 0; i+1 < len(lines); i++ {
-		l := lines[i]
-		if strings.HasPrefix(l, "panic(") {
+		fn := lines[i]
+		if strings.HasPrefix(fn, "\t") || strings.HasPrefix(fn, "goroutine ") || fn == "" {
+			continue
+		}
+		if strings.HasPrefix(fn, "panic(") {
 			seenPanic = true
 			continue
 		}
 		if !seenPanic {
 			continue
 		}
-		if strings.HasPrefix(l, "runtime.") || strings.HasPrefix(l, "reflect.") {
+		if strings.HasPrefix(fn, "runtime.") || strings.HasPrefix(fn, "reflect.") || strings.HasPrefix(fn, "runtime/") {
 			continue
+		}
+		if k := strings.LastIndex(fn, "("); k > 0 {
+			fn = fn[:k]
+		}
+		if k := strings.LastIndex(fn, "/"); k >= 0 {
+			fn = fn[k+1:]
 		}
 		loc := strings.TrimSpace(lines[i+1])
 		if k := strings.Index(loc, " +0x"); k > 0 {
 			loc = loc[:k]
 		}
-		fn := l
-		if k := strings.LastIndex(fn, "("); k > 0 {
-			fn = fn[:k]
-		}
-		if k := strings.LastIndex(loc, "/"); k > 0 {
-			// keep package dir + file
-			if j := strings.LastIndex(loc[:k], "/"); j > 0 {
-				loc = loc[j+1:]
-			}
+		if k := strings.LastIndex(loc, "/"); k >= 0 {
+			loc = loc[k+1:]
 		}
 		return fn + " @ " + loc
 	}
@@ -372,6 +380,12 @@ func WorkerMain(id, tier string, shard, nshards int, out string) int {
 		budget = s
 	}
 	c.deadline = time.Now().Add(time.Duration(budget) * time.Second)
+	if p.HangSeconds > 0 {
+		HangTimeout = time.Duration(p.HangSeconds) * time.Second
+	}
+	if s, err := strconv.Atoi(os.Getenv("VERIF_HANG_S")); err == nil && s > 0 {
+		HangTimeout = time.Duration(s) * time.Second
+	}
 	go c.watchdog()
 	code := 0
 	func() {
